@@ -831,6 +831,20 @@ CHECKS["C11"].update(
     technique="Per-run ast->Gallina translation of the linked list into a box heap + refinement proofs to the cursor/tombstone "
               "model; per-event vm_compute correspondence + exhaustive schedule trees")
 
+CHECKS["C04"]["text"] = ("All representation theorems (dtype/shape, numpy values, little-endian packed bytes, tofile under every "
+    "copy schedule, external data at any offset, serialization, nbytes for every size, string tensors for all byte strings, "
+    "torch views including lazily conjugated ones) proved in Coq for all dtypes/sizes/values over (a) dtype tables, dispatch "
+    "sets and the nbytes formula re-extracted from _enums/_core/serde, (b) the statement-by-statement translation of "
+    "_type_casting.py proved equal to its recursion form for every input, and (c) a hand model of the representations; tied by "
+    "in-Coq evaluation of the model on real numpy()/tobytes()/tofile()/nbytes observations (all representations, storage "
+    "fields, offsets, views, accessor orders, regular/append-mode/in-memory destinations, Python-value constructors) and direct "
+    "calls of the translated functions, with the ONNX reference encoder and decoder as third voice. No open findings: the "
+    "recorded defects are fixed in /repo, their witnesses are corpus cases, and `_before_fix` theorems keep the refutations of "
+    "the old code.")
+CHECKS["C02"]["note"] = CHECKS["C02"]["note"] + (" Below IR 10 the experimental function value-info format is proved at "
+    "function level (C02_function_experimental_ir9); at model level it is covered by the model-vs-implementation stream and the "
+    "oracle, outside wf_model.")
+
 
 def main():
     props = [json.loads(l) for l in open(os.path.join(VERIF, "properties.jsonl"))]
